@@ -155,7 +155,7 @@ func init() {
 					}
 					if v > 0 {
 						out[i].A = strategy.Buy
-					} else {
+					} else if v < 0 {
 						out[i].A = strategy.Sell
 					}
 				}
@@ -338,7 +338,7 @@ func s2PairRule(snaps []*asset.Snapshot, a []float64, wa int, b []float64, wb in
 		}
 		if x > y {
 			out[i].A = strategy.Buy
-		} else {
+		} else if x < y {
 			out[i].A = strategy.Sell
 		}
 	}
